@@ -101,7 +101,8 @@ def money (ms : List Msg) : String :=
     (ms.map fun m => match m with | .send to c => if f to then c.amount else 0 | _ => 0).sum
   let burn := (ms.map fun m => match m with | .burn c => c.amount | _ => 0).sum
   let pool := (ms.map fun m => match m with | .fundPool _ c => c.amount | _ => 0).sum
-  s!"dev={sumTo isDev} liq={sumTo (· == LIQUIDITY_DAO)} lp={sumTo (· == LAUNCHPAD_DAO)} seller={sumTo (· == ADMIN)} burn={burn} pool={pool}"
+  let devs := ms.filterMap fun m => match m with | .send to c => if isDev to then some (to, c.amount) else none | _ => none
+  s!"dev={renderPairs devs} liq={sumTo (· == LIQUIDITY_DAO)} lp={sumTo (· == LAUNCHPAD_DAO)} seller={sumTo (· == ADMIN)} burn={burn} pool={pool}"
 
 structure D where
   env : Env := ⟨[], []⟩
@@ -142,19 +143,19 @@ def c18Line (d : D) (line : String) : D × String :=
     | none => (d, "no-case")
     | some w =>
       match h with
-      | "qp" => (d, renderParams w.params)
-      | "qids" => (d, s!"ids={renderNats w.params.allowed}")
+      | "qp" => (d, "params " ++ renderParams w.params)
+      | "qids" => (d, s!"list ids={renderNats w.params.allowed}")
       | "qid" =>
         match natKv ws "x" with
         | some x => (d, s!"allowed={b2s (allowedQuery w.params.allowed x)}")
         | none => (d, "bad-op")
       | "qs" =>
         match (natKv ws "m").bind w.minter with
-        | some r => (d, s!"v={b2s r.status.isVerified} b={b2s r.status.isBlocked} e={b2s r.status.isExplicit}")
+        | some r => (d, s!"status v={b2s r.status.isVerified} b={b2s r.status.isBlocked} e={b2s r.status.isExplicit}")
         | none => (d, "err")
       | "qm" =>
         match (natKv ws "m").bind w.minter with
-        | some r => (d, s!"kind={r.kind.idx} price={rc r.price} mintable={r.mintable} pal={r.pal}")
+        | some r => (d, s!"minter kind={r.kind.idx} price={rc r.price} mintable={renderOpt r.mintable} pal={r.pal}")
         | none => (d, "err")
       | _ =>
         match parseOp ws with
